@@ -13,10 +13,13 @@ import (
 // ---- C13: only the fully authenticated owner, proving the factor, can change 2FA settings
 
 type monC13 struct {
-	sms      []*smsSent      // latest code sent for each browser
-	issued   []string        // e-mail verify token mailed for this browser's session
-	authed   []bool          // model: this browser's session presented its mailed token
-	spentRec map[string]bool // recovery codes already used once (whatever storage still says)
+	sms    []*smsSent // latest code sent for each browser
+	issued []string   // e-mail verify token mailed for this browser's session
+	authed []bool     // model: this browser's session presented its mailed token
+	// the account the token was mailed to / the authorisation was earned by: it authorises that
+	// account's enrolment only, whoever the session names later
+	issuedFor, authedAs []string
+	spentRec            map[string]bool // recovery codes already used once (whatever storage still says)
 	// model of how each browser's session got its user: "full" only after a completed login
 	// as that user (all steps), "half" after a remember re-authentication; the session's
 	// half-auth key is not trusted to say so
@@ -94,6 +97,7 @@ func (c *monC13) spend(b int, r *harness.Resp) {
 func (c *monC13) Init(m *Machine) {
 	n := len(m.W.Jars)
 	c.sms, c.issued, c.authed = make([]*smsSent, n), make([]string, n), make([]bool, n)
+	c.issuedFor, c.authedAs = make([]string, n), make([]string, n)
 }
 
 var enrolOps = map[string]bool{"totpsetup": true, "totpconfirm": true, "smssetup": true, "smsconfirm": true}
@@ -142,7 +146,7 @@ func (c *monC13) After(m *Machine, s *Step) *Violation {
 		if op.K == "evstart" {
 			for _, ml := range r.Mails {
 				if strings.Contains(ml.URL, "/email/verify/end") && ml.Token != "" {
-					c.issued[b] = ml.Token
+					c.issued[b], c.issuedFor[b] = ml.Token, uid
 					if u, ok := s.Pre.Users[uid]; ok && (len(ml.To) != 1 || ml.To[0] != u.Email) {
 						return violation("C13", "verify-mail-misaddressed", "2FA e-mail authorisation for %q was mailed to %v", uid, ml.To)
 					}
@@ -151,9 +155,9 @@ func (c *monC13) After(m *Machine, s *Step) *Violation {
 		}
 		newlyAuthed := r.SessAfter[authboss.Session2FAAuthed] == "true" && r.SessBefore[authboss.Session2FAAuthed] != "true"
 		if op.K == "evend" {
-			legit := c.issued[b] != "" && s.Secret == c.issued[b] && full
+			legit := c.issued[b] != "" && s.Secret == c.issued[b] && full && c.issuedFor[b] == uid
 			if legit && newlyAuthed {
-				c.authed[b], c.issued[b] = true, ""
+				c.authed[b], c.issued[b], c.authedAs[b] = true, "", uid
 				m.flag("email-authorised")
 			}
 			if !legit {
@@ -167,6 +171,8 @@ func (c *monC13) After(m *Machine, s *Step) *Violation {
 		}
 		if (enrolOps[op.K] || (op.K == "get" && (strings.Contains(op.S, "/setup") || strings.Contains(op.S, "/confirm") || strings.Contains(op.S, "/qr")))) && r.Rec.HandlerRan && !c.authed[b] {
 			return violation("C13", "enrolment-route-without-email-auth:"+op.K, "with e-mail authorisation required, the %s handler ran in a session that never presented its mailed token", op.K)
+		} else if (enrolOps[op.K] || (op.K == "get" && (strings.Contains(op.S, "/setup") || strings.Contains(op.S, "/confirm") || strings.Contains(op.S, "/qr")))) && r.Rec.HandlerRan && c.authedAs[b] != uid {
+			return violation("C13", "enrolment-route-with-another-accounts-email-auth:"+op.K, "with e-mail authorisation required, the %s handler ran for %q in a session whose authorisation was earned with the token mailed to %q", op.K, uid, c.authedAs[b])
 		}
 		if _, still := r.SessAfter[authboss.Session2FAAuthed]; !still {
 			c.authed[b] = false
